@@ -15,7 +15,7 @@ CHANNEL_OF = [
     ("snap archcap", "cap"),
     ("ret ", "ret"), ("panic ", "ret"), ("ub ", "ret"), ("assert ", "ret"), ("bad-op", "ret"),
     ("id ", "ids"), ("t ", "trace"), ("ed", "evdrops"), ("cd", "cdrops"), ("st ", "store"), ("reg ", "reg"),
-    ("snap ", "arch"), ("pend ", "pend"), ("ca ", "accept"), ("exit ", "exit"),
+    ("snap ", "arch"), ("pend ", "pend"), ("inv ", "inv"), ("ca ", "accept"), ("exit ", "exit"),
 ]
 
 
@@ -53,9 +53,9 @@ def parse_output(text):
     return res
 
 
-def run_model(histories, release=False, snap=False):
+def run_model(histories, release=False, snap=False, inv=False):
     inp = format_histories(histories)
-    args = [DRIVER] + (["--release"] if release else []) + (["--snap"] if snap else [])
+    args = [DRIVER] + (["--release"] if release else []) + (["--snap"] if snap else []) + (["--inv"] if inv else [])
     p = subprocess.run(args, input=inp, capture_output=True, text=True)
     if p.returncode != 0:
         raise RuntimeError(f"model driver failed rc={p.returncode}: {p.stderr[:500]}")
